@@ -92,6 +92,31 @@ def split_or_callee(tree):
             setattr(node, f, out)
 
 
+def split_star_calls(tree):
+    """f(*(A if c else B))  as a statement  ->  if c: f(*A) else: f(*B);    f(*(a, b))  ->  f(a, b)"""
+    def expand(s):
+        c = s.value if isinstance(s, ast.Expr) else None
+        if isinstance(c, ast.Call) and len(c.args) == 1 and isinstance(c.args[0], ast.Starred) and not c.keywords:
+            v = c.args[0].value
+            if isinstance(v, ast.IfExp):
+                one = ast.copy_location(ast.Expr(value=ast.Call(func=copy.deepcopy(c.func), args=[ast.Starred(value=v.body, ctx=ast.Load())], keywords=[])), s)
+                two = ast.copy_location(ast.Expr(value=ast.Call(func=copy.deepcopy(c.func), args=[ast.Starred(value=v.orelse, ctx=ast.Load())], keywords=[])), s)
+                new = ast.If(test=v.test, body=expand(one), orelse=expand(two))
+                return [ast.fix_missing_locations(ast.copy_location(new, s))]
+            if isinstance(v, (ast.Tuple, ast.List)) and not any(isinstance(e, ast.Starred) for e in v.elts):
+                new = ast.Expr(value=ast.Call(func=c.func, args=list(v.elts), keywords=[]))
+                return [ast.fix_missing_locations(ast.copy_location(new, s))]
+        return [s]
+    for node in ast.walk(tree):
+        for f in ("body", "orelse", "finalbody"):
+            v = getattr(node, f, None)
+            if isinstance(v, list) and v and isinstance(v[0], ast.stmt):
+                out = []
+                for s in v:
+                    out.extend(expand(s))
+                setattr(node, f, out)
+
+
 def split_chained_assign(tree):
     """t1 = n = E   ->   n = E; t1 = n      (n a plain name that the other targets do not mention)"""
     for node in ast.walk(tree):
@@ -2187,6 +2212,11 @@ def normalize_package(trees, known=None, passes=None):
             drop_dead_local_defs(t)
         if on(7):
             canon_flow(t)
+        split_star_calls(t)
+        if mn in ("codegen",) or mn.endswith(".codegen"):
+            split_writelines(t)
+        if on(7):
+            canon_flow(t)
         ast.fix_missing_locations(t)
     return stats
 
@@ -2781,6 +2811,27 @@ def unroll_const_loops(tree):
                     unroll_const_loops(new)
                     out.append(new)
                     continue
+                # for a, b in ((a1, b1), (a2, b2), ..): B   (the table in place, or a local written just before and used for nothing else;
+                # each of a, b read at most once in B)
+                if isinstance(s, ast.For) and not s.orelse and isinstance(s.target, ast.Tuple) and all(isinstance(e, ast.Name) for e in s.target.elts) and len(s.body) <= 3 \
+                        and not any(isinstance(x, (ast.Break, ast.Continue, ast.Return, ast.Yield, ast.YieldFrom)) for b in s.body for x in ast.walk(b)):
+                    table, prev = s.iter, None
+                    if isinstance(table, ast.Name) and out and isinstance(out[-1], ast.Assign) and len(out[-1].targets) == 1 and isinstance(out[-1].targets[0], ast.Name) and out[-1].targets[0].id == table.id \
+                            and sum(1 for x in ast.walk(n) if isinstance(x, ast.Name) and x.id == table.id) == 2:
+                        prev, table = out[-1], out[-1].value
+                    names = [e.id for e in s.target.elts]
+                    if isinstance(table, (ast.Tuple, ast.List)) and 1 <= len(table.elts) <= 12 and all(isinstance(r, (ast.Tuple, ast.List)) and len(r.elts) == len(names) for r in table.elts) \
+                            and all(sum(1 for b in s.body for x in ast.walk(b) if isinstance(x, ast.Name) and x.id == nm) <= 1 for nm in names) \
+                            and not any(isinstance(x, ast.Name) and x.id in names and isinstance(x.ctx, ast.Store) for b in s.body for x in ast.walk(b)):
+                        if prev is not None:
+                            out.pop()
+                        for r in table.elts:
+                            for b in s.body:
+                                nb = copy.deepcopy(b)
+                                for nm, v in zip(names, r.elts):
+                                    nb = _SubstName(nm, v).visit(nb)
+                                out.append(ast.fix_missing_locations(nb))
+                        continue
                 roots = set()
                 if isinstance(s, ast.For) and isinstance(s.iter, (ast.Tuple, ast.List)):
                     for e in s.iter.elts:
